@@ -5,7 +5,7 @@ from __future__ import annotations
 import ast
 
 from .. import terms as T
-from ..model import AnalysisError, self_attr, walk_no_nested
+from ..model import AnalysisError, self_attr, stmt_text, walk_no_nested
 from ..paths import unversion
 from ..phases import conjuncts
 
@@ -437,3 +437,29 @@ def hand_observers(chk, ctx, rule, names=('get_hand', 'get_up_hand')) -> None:
         chk.ob(rule, f'State.{name}', bool(got) and all(g == want for g in got) and not other and want in rets, f.loc,
                what + ', with the asked hand type; that evaluation or None is the only answer',
                got=T.show(other[0]) if other else (T.show(got[0]) if got else None), want=T.show(want))
+
+
+def handover_last(chk, ctx, rule) -> None:
+    """a phase step (_begin_X / _end_X) has applied everything it has to apply when it hands over to the next step: the cascade that
+    runs from there (automated operations, possibly to the end of the hand) sees the finished state, and nothing is written over
+    what the cascade did once it returns"""
+    ms = ctx.state.methods
+    for name, fi in sorted(ms.items()):
+        if not name.startswith(('_begin_', '_end_')):
+            continue
+        bad = None
+        n = 0
+        for p in ctx.paths(fi):
+            if p.raised:
+                continue
+            ks = [k for k, e in enumerate(p.events) if e.kind == 'call' and e.value[0] == 'self' and e.value[1].startswith(('_begin_', '_end_', '_update_'))]
+            if not ks:
+                continue
+            n += 1
+            late = [e for e in p.events[ks[0] + 1:] if e.kind == 'write']
+            if late:
+                bad = late[0]
+        if n:
+            chk.ob(rule, f'State.{name}:handover_last', bad is None, ctx.loc(fi, bad.node) if bad is not None else fi.loc,
+                   'nothing is written after the step has handed over to the next one (the automated cascade runs inside that call)',
+                   got=stmt_text(bad.node, 80) if bad is not None else f'{n} path(s)')
